@@ -113,6 +113,8 @@ def replay_one(kind, conds, data):
     want = {"if": {0: t0, 1: False, 2: True, 3: False, 4: False, 5: False},
             "ifelse": {0: t0, 1: not t0, 2: True, 3: False, 4: False, 5: False},
             "nested": {0: t0, 1: not t0, 2: True, 3: t0 and t1, 4: t0 and not t1, 5: t0},
+            "ifelse_empty": {0: t0, 1: False, 2: True, 3: False, 4: False, 5: False},
+            "nested_empty": {0: t0, 1: not t0, 2: True, 3: t0 and t1, 4: False, 5: t0},
             "sequence": {0: t0, 1: False, 2: True, 3: t1, 4: not t1, 5: False}}[kind]
     ok = all(bool(got[m]) == bool(want[m]) for m in range(6))
     ops = {}
